@@ -34,7 +34,7 @@ RULE = (
     "0.5e-4 and typed float. Non-trivial: an ndarray that is not C-contiguous or not small-1-D, "
     "or int and str keys together, or a cell containing a delimiter/quote/newline, or a nested "
     "container in a parameter file."
-    ' Later additions: number-like string keys, NumPy integer keys, an ASCII-locale sub-process.')
+    ' Later additions: number-like string keys, NumPy integer keys, an ASCII-locale sub-process, tuples in parameter files, file extensions in any letter case.')
 ASSUMPTIONS = ['Python json/csv modules', 'file text restricted to ASCII for TSV/params '
                '(locale-independent); JSON uses ensure_ascii so full Unicode is generated']
 
@@ -104,6 +104,8 @@ def build(v):
             return build_array(v)
         if tag == 'dict':
             return {k: build(x) for k, x in v['items']}
+        if tag == 'tuple':
+            return tuple(build(x) for x in v['items'])
         raise ValueError(v)
     if isinstance(v, list):
         return [build(x) for x in v]
@@ -151,6 +153,14 @@ def equal(obs, exp, path='$'):
             return '%s: shape %s != %s' % (path, obs.shape, exp.shape)
         if not np.array_equal(obs, exp, equal_nan=(exp.dtype.kind in 'fc')):
             return '%s: array values differ' % path
+        return None
+    if isinstance(exp, tuple):
+        if type(obs) is not tuple or len(obs) != len(exp):
+            return '%s: expected the tuple %r, got %r' % (path, exp, obs)
+        for i, (o, e) in enumerate(zip(obs, exp)):
+            r = equal(o, e, '%s[%d]' % (path, i))
+            if r:
+                return r
         return None
     if isinstance(exp, bool) or exp is None:
         return None if (type(obs) is type(exp) and obs == exp) else \
@@ -277,7 +287,8 @@ def _tsv_case(draw):
         if f not in union:
             rows[0][f] = draw(_cell)
     first = draw(st.none() | st.sampled_from(FIELDS))
-    return {'k': 'tsv', 'rows': rows, 'ext': draw(st.sampled_from(['.tsv', '.csv'])),
+    return {'k': 'tsv', 'rows': rows,
+            'ext': draw(st.sampled_from(['.tsv', '.csv', '.tsv', '.csv', '.TSV', '.Csv', '.Tsv'])),
             'first': first}
 
 
@@ -288,7 +299,7 @@ def _simple_case(draw):
                         max_size=n, unique=True))
     return {'k': 'simple', 'field': draw(st.sampled_from(['group', 'KSLabel', 'Amplitude', 'n_x'])),
             'data': [[i, draw(_cell)] for i in ids],
-            'ext': draw(st.sampled_from(['.tsv', '.csv']))}
+            'ext': draw(st.sampled_from(['.tsv', '.csv', '.tsv', '.csv', '.TSV', '.CSV']))}
 
 
 _ascii = st.text(st.characters(min_codepoint=32, max_codepoint=126), max_size=10)
@@ -312,7 +323,9 @@ def _py_case(draw):
     n = draw(st.integers(0, 6))
     keys = draw(st.lists(_ident, min_size=n, max_size=n, unique=True))
     # containers only at the top level: a bare top-level string must obey the _top_str domain
-    top = _py_atom | _top_str | _npscalar_finite | st.lists(_py_nested, max_size=4) | \
+    # tuples (dat_shape = (385,), probe sizes ...): one item, several, none
+    tup = st.lists(_py_atom | _ascii_any, max_size=3).map(lambda xs: {'$': 'tuple', 'items': xs})
+    top = _py_atom | _top_str | _npscalar_finite | tup | st.lists(_py_nested | tup, max_size=4) | \
         st.lists(st.tuples(_ascii_any | st.integers(-5, 5), _py_nested), max_size=3,
                  unique_by=lambda kv: repr(kv[0])).map(
                      lambda items: {'$': 'dict', 'items': [list(kv) for kv in items]})
@@ -384,9 +397,10 @@ def _check_tsv(case, d):
         for f, c in row.items():
             _check_cell(o[f], c, 'row %d field %s' % (i, f), 0.5e-4)
     # header order: requested first column first, the rest sorted
-    delim = '\t' if case['ext'] == '.tsv' else ','
     with open(p, newline='') as fh:
-        header = fh.readline().rstrip('\r\n').split(delim)
+        line = fh.readline().rstrip('\r\n')
+    # (whichever of the two delimiters the writer chose for this extension)
+    header = line.split('\t' if '\t' in line else ',')
     fields = sorted(set().union(*[set(r) for r in case['rows']]))
     if case['first'] in fields:
         fields.remove(case['first'])
